@@ -346,12 +346,16 @@ def gates():
 
 
 def c09_consulted(year, r):
+    """a line that is a gate on a boolean input (frozen `refusing` pairs) read yes, yet the return solved"""
     errs = []
     if r.exc is not None or not r.verdict:
         return errs
-    unc = set((y, n, v) for y, n, v in gates().get('unconditional', []))
+    g = gates()
+    if 'refusing_set' not in g:
+        g['refusing_set'] = set((y, l, n) for y, l, n in g.get('refusing', []))
+    ref = g['refusing_set']
     for a in r.log:
         for kind, name, st, val in a.reads:
-            if kind == 'i' and st == 'ok' and val is True and (year, name, 'yes') in unc:
-                errs.append((f'gate-solved|{name}', f'{a.line} read {name} = yes (a declared unsupported situation) and the return still solved'))
+            if kind == 'i' and st == 'ok' and val is True and (year, a.line, name) in ref:
+                errs.append((f'gate-solved|{a.line}|{name}', f'{a.line} read {name} = yes (a declared unsupported situation) and the return still solved'))
     return errs
